@@ -161,7 +161,7 @@ def make_func(ctx: Ctx, spec: dict, flavour: str):
         sig = ", ".join((f"{p}: _t_{p}" if p in ann else p) + (f" = _d_{p}" if p in defaults else "") for p in params)
     ret = " -> _t_return" if "return" in ann else ""
     args = "(" + "".join(f"{p}, " for p in params) + ")"
-    is_async = flavour == "async" and kind in ("func",) and not spec.get("force_sync")
+    is_async = (flavour == "async" and kind in ("func",) and not spec.get("force_sync")) or (kind == "interrupt" and bool(spec.get("async_handler")))
     coro_def = is_async and bool(spec.get("coro_def"))  # plain `def` that returns a coroutine (awaited by the executor)
     fail = spec.get("fail")
     table = spec.get("table")
